@@ -1802,9 +1802,16 @@ impl<'a, 'b, W: Write> SerializeSeq for SeqSer<'a, 'b, W> {
                     self.ser.out.write_str(" ")?;
                     self.ser.pending_space_after_colon = false;
                 }
-                // If at line start, indent appropriately.
+                // If at line start, indent appropriately. With compact_list_indent the dashes of
+                // a mapping value sit in the key's column, which is fine for `- item` lines but
+                // not for `[]`: a value on its own line must be indented deeper than its key.
                 if self.ser.at_line_start {
-                    self.ser.write_indent(self.depth)?;
+                    let depth = if self.ser.current_map_depth == Some(self.depth) {
+                        self.depth + 1
+                    } else {
+                        self.depth
+                    };
+                    self.ser.write_indent(depth)?;
                 }
                 self.ser.out.write_str("[]")?;
                 self.ser.newline()?;
